@@ -257,6 +257,32 @@ theorem C16_reconnect_oracle_accepts_model (reply : Reply) :
       (XmppVerif.Spec.C16.modelReconnect reply).2 = true := by
   cases reply <;> decide
 
+/-- Every life of one component value is judged on its own reply: whatever replies the earlier connections of the same
+component met, the model reports a handshake reply as established (nil, state, announcement) and every other reply as
+an error with a non-established state and no announcement. -/
+theorem C16_lives_oracle_accepts_model (rs : List Reply) :
+    XmppVerif.Spec.C16.holdsLives rs (XmppVerif.Spec.C16.modelLives rs) = true := by
+  unfold XmppVerif.Spec.C16.holdsLives XmppVerif.Spec.C16.modelLives
+  simp only [List.length_map, beq_self_eq_true, Bool.true_and, List.all_eq_true]
+  intro x hx
+  obtain ⟨r, hr, rfl⟩ : ∃ r, r ∈ rs ∧ x = (r, XmppVerif.Spec.C16.modelLife r) := by
+    induction rs with
+    | nil => simp at hx
+    | cons a t ih =>
+      simp only [List.map_cons, List.zip_cons_cons, List.mem_cons] at hx
+      rcases hx with h | h
+      · exact ⟨a, List.mem_cons_self, h⟩
+      · obtain ⟨r, hr, e⟩ := ih h
+        exact ⟨r, List.mem_cons_of_mem _ hr, e⟩
+  cases r <;> decide
+
+example : XmppVerif.Spec.C16.holdsLives [.other, .handshake, .streamError]
+    [(some true, 4, 0), (none, 2, 1), (some true, 3, 0)] = true := by decide
+-- a component that stays in its earlier state is refused by the oracle (the seeded changes C16-h1 / C16-h2)
+example : XmppVerif.Spec.C16.holdsLives [.other, .handshake] [(some true, 4, 0), (none, 4, 0)] = false := by decide
+example : XmppVerif.Spec.C16.holdsLives [.streamError, .handshake, .streamError]
+    [(some true, 3, 0), (none, 2, 1), (some true, 2, 0)] = false := by decide
+
 end XmppVerif.Props.C16
 
 #print axioms XmppVerif.Props.C16.C16_hex_shape
@@ -276,3 +302,4 @@ end XmppVerif.Props.C16
 #print axioms XmppVerif.Props.C16.C16_oracle_accepts_model
 #print axioms XmppVerif.Props.C16.C16_failed_attempt_not_established
 #print axioms XmppVerif.Props.C16.C16_reconnect_oracle_accepts_model
+#print axioms XmppVerif.Props.C16.C16_lives_oracle_accepts_model
